@@ -66,6 +66,7 @@ Definition E_Incompatible := "nix::IncompatibleDimensions".
 Definition E_EmptyString := "nix::EmptyString".
 Definition E_InvalidRank := "nix::InvalidRank".
 Definition E_H5 := "nix::hdf5::H5Error".
+Definition E_Logic := "std::logic_error".      (* the harness refuses the call itself (outside the exercised domain) *)
 
 (* ------------------------------------------------------------------------------------------ *)
 (** * Values *)
@@ -135,20 +136,25 @@ Record state := mkState {
   a_ty : dtype;
   a_rank : nat;
   frames : list frame;          (* the data frames of the array's block, by ordinal *)
-  ro : bool                     (* file opened ReadOnly *)
+  ro : bool;                    (* file opened ReadOnly *)
+  foreign : list (option (frame * bool));
+                                (* frame HANDLES that are not frames of the array's block: frames of the second block
+                                   "b2" (their names may equal local names) and stale handles of deleted local frames;
+                                   the flag: still in the file after a reopen; None: the handle is gone *)
+  b2_alive : bool               (* the second block has not been deleted *)
 }.
 
 Definition with_dims (s : state) (m : dmap) : state :=
-  mkState m (a_label s) (a_unit s) (a_data s) (a_ty s) (a_rank s) (frames s) (ro s).
+  mkState m (a_label s) (a_unit s) (a_data s) (a_ty s) (a_rank s) (frames s) (ro s) (foreign s) (b2_alive s).
 Definition with_label (s : state) (l : option string) : state :=
-  mkState (dims s) l (a_unit s) (a_data s) (a_ty s) (a_rank s) (frames s) (ro s).
+  mkState (dims s) l (a_unit s) (a_data s) (a_ty s) (a_rank s) (frames s) (ro s) (foreign s) (b2_alive s).
 Definition with_unit (s : state) (u : option string) : state :=
-  mkState (dims s) (a_label s) u (a_data s) (a_ty s) (a_rank s) (frames s) (ro s).
+  mkState (dims s) (a_label s) u (a_data s) (a_ty s) (a_rank s) (frames s) (ro s) (foreign s) (b2_alive s).
 Definition with_data (s : state) (d : list V) : state :=
-  mkState (dims s) (a_label s) (a_unit s) d (a_ty s) (a_rank s) (frames s) (ro s).
+  mkState (dims s) (a_label s) (a_unit s) d (a_ty s) (a_rank s) (frames s) (ro s) (foreign s) (b2_alive s).
 
-Definition dinit (t : dtype) (rank : nat) (len : nat) (fs : list frame) : state :=
-  mkState [] None None (repeat (NDArr.zero_of t) len) t rank fs false.
+Definition dinit (t : dtype) (rank : nat) (len : nat) (fs ffs : list frame) : state :=
+  mkState [] None None (repeat (NDArr.zero_of t) len) t rank fs false (map (fun fr => Some (fr, true)) ffs) true.
 
 Fixpoint lookup (k : Z) (m : dmap) : option dimdesc :=
   match m with
@@ -165,7 +171,7 @@ Definition data_dbl (s : state) : list F64 := map (to_dbl (a_ty s)) (a_data s).
 (* ------------------------------------------------------------------------------------------ *)
 (** * Operations and answers *)
 
-Inductive fref := FNone | FOrd (n : nat) | FForeign.     (* no frame / n-th frame of the block / a frame of another block *)
+Inductive fref := FNone | FOrd (n : nat) | FForeign (n : nat).   (* no frame / n-th frame of the block / n-th foreign handle *)
 Inductive fq := QLabel | QUnit | QType.
 
 Inductive op :=
@@ -201,6 +207,8 @@ Inductive op :=
 | AUnit (u : option string)
 | AData (v : list F64)
 | Reopen (readonly : bool)
+| DropForeignBlock                 (* File::deleteBlock("b2") *)
+| RecreateFrame (k : nat)          (* deleteDataFrame(name of local frame k); createDataFrame(same name, same columns) *)
 | Observe.
 
 Inductive dobs :=
@@ -372,10 +380,6 @@ Definition append_alias (s : state) : R :=
   | UB w => (s, UB w)
   end.
 
-(** the frame "g" of the other block: one column *)
-Definition foreign_cols : Z := 1.
-Definition foreign_col_names : list string := ["x"].
-
 Fixpoint index_of (n : string) (l : list string) (i : Z) : option Z :=
   match l with
   | [] => None
@@ -389,7 +393,9 @@ Definition append_frame_be (b : behaviour) (s : state) (f : fref) (col : option 
   let k := count s + 1 in
   match f with
   | FNone => (s, Err E_Uninit)
-  | FForeign =>
+  | FForeign _ =>
+      (* the frame is looked up in the array's block BY ID: a frame of another block or a stale handle is not
+         there, whatever its name *)
       if validate_frame_first b then (s, Err E_Runtime) else                                         (* SWITCH *)
       match create_group s k with
       | Ok m => (add_dim s m k (DFrame None None), Err E_Runtime)      (* type attribute written, no link *)
@@ -407,7 +413,7 @@ Definition append_frame_be (b : behaviour) (s : state) (f : fref) (col : option 
 Definition fref_cols (s : state) (f : fref) : res (list string) :=
   match f with
   | FNone => Err E_Uninit
-  | FForeign => Ok foreign_col_names
+  | FForeign n => match nth_error (foreign s) n with Some (Some (fr, _)) => Ok (col_names fr) | _ => Err E_Uninit end
   | FOrd n => match nth_error (frames s) n with Some fr => Ok (col_names fr) | None => Err E_Uninit end
   end.
 
@@ -620,9 +626,38 @@ Definition arr_data (s : state) (v : list F64) : R :=
   | UB w => (s, UB w)
   end.
 
+(** a handle survives close; open only if its frame is still in the file *)
+Definition keep_persistent (e : option (frame * bool)) : option (frame * bool) :=
+  match e with Some (fr, true) => Some (fr, true) | _ => None end.
+Definition unpersist (e : option (frame * bool)) : option (frame * bool) :=
+  match e with Some (fr, _) => Some (fr, false) | None => None end.
+
 (** close; open: everything observed here lives in the file *)
 Definition reopen (s : state) (r : bool) : R :=
-  (mkState (dims s) (a_label s) (a_unit s) (a_data s) (a_ty s) (a_rank s) (frames s) r, Ok ADone).
+  (mkState (dims s) (a_label s) (a_unit s) (a_data s) (a_ty s) (a_rank s) (frames s) r
+           (map keep_persistent (foreign s)) (b2_alive s), Ok ADone).
+
+(** File::deleteBlock("b2"): the handles of its frames stay usable until the file is closed *)
+Definition drop_foreign (s : state) : R :=
+  if ro s then (s, Err E_Logic) else
+  if b2_alive s then
+    (mkState (dims s) (a_label s) (a_unit s) (a_data s) (a_ty s) (a_rank s) (frames s) (ro s)
+             (map unpersist (foreign s)) false, Ok (ABool true))
+  else (s, Ok (ABool false)).
+
+(** deleteDataFrame removes EVERY link to the frame (removeAllLinks), also the "data_frame" link of a
+    descriptor; the frame created anew under the same name is another object *)
+Definition detach (k : nat) (d : dimdesc) : dimdesc :=
+  match d with DFrame (Some j) c => if Nat.eqb j k then DFrame None c else d | _ => d end.
+
+Definition recreate_frame (s : state) (k : nat) : R :=
+  if ro s then (s, Err E_Logic) else
+  match nth_error (frames s) k with
+  | None => (s, Err E_Logic)
+  | Some fr =>
+      (mkState (map (fun p => (fst p, detach k (snd p))) (dims s)) (a_label s) (a_unit s) (a_data s) (a_ty s) (a_rank s)
+               (frames s) (ro s) (List.app (foreign s) [Some (fr, false)]) (b2_alive s), Ok ADone)
+  end.
 
 Definition get_dim (s : state) (i : Z) : R :=
   (s, Ok (AKind (match lookup i (dims s) with Some d => Some (kind_of d, i) | None => None end))).
@@ -666,6 +701,8 @@ Definition dstep (b : behaviour) (o : op) (s : state) : R :=
   | AUnit u => arr_unit s u
   | AData v => arr_data s v
   | Reopen r => reopen s r
+  | DropForeignBlock => drop_foreign s
+  | RecreateFrame k => recreate_frame s k
   | Observe => (s, Ok (AObs (dobserve s)))
   end.
 
@@ -689,15 +726,17 @@ Record sstate := mkS {
   q_ty : dtype;
   q_rank : nat;
   q_frames : list frame;
-  q_ro : bool }.
+  q_ro : bool;
+  q_foreign : list (option (frame * bool));
+  q_b2 : bool }.
 
 Inductive sres := SOk (a : ans) | SReject | SAny.     (* demanded answer / must be refused / unconstrained *)
 
-Definition sinit (t : dtype) (rank : nat) (len : nat) (fs : list frame) : sstate :=
-  mkS [] None None (repeat (NDArr.zero_of t) len) t rank fs false.
+Definition sinit (t : dtype) (rank : nat) (len : nat) (fs ffs : list frame) : sstate :=
+  mkS [] None None (repeat (NDArr.zero_of t) len) t rank fs false (map (fun fr => Some (fr, true)) ffs) true.
 
 Definition s_with_dims (s : sstate) (l : list dimdesc) : sstate :=
-  mkS l (q_label s) (q_unit s) (q_data s) (q_ty s) (q_rank s) (q_frames s) (q_ro s).
+  mkS l (q_label s) (q_unit s) (q_data s) (q_ty s) (q_rank s) (q_frames s) (q_ro s) (q_foreign s) (q_b2 s).
 
 Definition s_count (s : sstate) : Z := zlen (q_dims s).
 Definition q_data_dbl (s : sstate) : list F64 := map (to_dbl (q_ty s)) (q_data s).
@@ -726,7 +765,7 @@ Definition s_append (s : sstate) (d : dimdesc) : sstate * sres :=
 Definition s_fref_cols (s : sstate) (f : fref) : option (list string) :=
   match f with
   | FNone => None
-  | FForeign => Some foreign_col_names
+  | FForeign n => match nth_error (q_foreign s) n with Some (Some (fr, _)) => Some (col_names fr) | _ => None end
   | FOrd n => match nth_error (q_frames s) n with Some fr => Some (col_names fr) | None => None end
   end.
 Definition s_append_frame (s : sstate) (f : fref) (col : option Z) : sstate * sres :=
@@ -756,11 +795,11 @@ Definition set_opt_str (v : option string) (legal : string -> bool) (cur : optio
   end.
 
 Definition s_with_label (s : sstate) (l : option string) : sstate :=
-  mkS (q_dims s) l (q_unit s) (q_data s) (q_ty s) (q_rank s) (q_frames s) (q_ro s).
+  mkS (q_dims s) l (q_unit s) (q_data s) (q_ty s) (q_rank s) (q_frames s) (q_ro s) (q_foreign s) (q_b2 s).
 Definition s_with_unit (s : sstate) (u : option string) : sstate :=
-  mkS (q_dims s) (q_label s) u (q_data s) (q_ty s) (q_rank s) (q_frames s) (q_ro s).
+  mkS (q_dims s) (q_label s) u (q_data s) (q_ty s) (q_rank s) (q_frames s) (q_ro s) (q_foreign s) (q_b2 s).
 Definition s_with_data (s : sstate) (d : list V) : sstate :=
-  mkS (q_dims s) (q_label s) (q_unit s) d (q_ty s) (q_rank s) (q_frames s) (q_ro s).
+  mkS (q_dims s) (q_label s) (q_unit s) d (q_ty s) (q_rank s) (q_frames s) (q_ro s) (q_foreign s) (q_b2 s).
 
 (** a write to the ARRAY (its label, unit or data), possibly through the alias *)
 Definition s_arr_write (s : sstate) (legal : bool) (noop : bool) (s' : sstate) : sstate * sres :=
@@ -904,7 +943,20 @@ Definition sp_step (o : op) (s : sstate) : sstate * sres :=
       | Err _ => (s_with_data s (repeat (NDArr.zero_of (q_ty s)) (List.length v)), SReject)
       | UB _ => (s, SAny)
       end
-  | Reopen r => (mkS (q_dims s) (q_label s) (q_unit s) (q_data s) (q_ty s) (q_rank s) (q_frames s) r, SOk ADone)
+  | Reopen r => (mkS (q_dims s) (q_label s) (q_unit s) (q_data s) (q_ty s) (q_rank s) (q_frames s) r
+                     (map keep_persistent (q_foreign s)) (q_b2 s), SOk ADone)
+  | DropForeignBlock =>
+      if q_ro s then (s, SReject) else
+      if q_b2 s then (mkS (q_dims s) (q_label s) (q_unit s) (q_data s) (q_ty s) (q_rank s) (q_frames s) (q_ro s)
+                          (map unpersist (q_foreign s)) false, SOk (ABool true))
+      else (s, SOk (ABool false))
+  | RecreateFrame k =>
+      if q_ro s then (s, SReject) else
+      match nth_error (q_frames s) k with
+      | None => (s, SReject)
+      | Some fr => (mkS (map (detach k) (q_dims s)) (q_label s) (q_unit s) (q_data s) (q_ty s) (q_rank s) (q_frames s) (q_ro s)
+                        (List.app (q_foreign s) [Some (fr, false)]) (q_b2 s), SOk ADone)
+      end
   | Observe => (s, SOk (AObs (s_observe s)))
   end.
 
@@ -919,7 +971,7 @@ Definition forget (r : res ans) : sres := match r with Ok a => SOk a | Err _ => 
 
 (** the part of the model state the specification talks about *)
 Definition abs (s : state) : sstate :=
-  mkS (map snd (dims s)) (a_label s) (a_unit s) (a_data s) (a_ty s) (a_rank s) (frames s) (ro s).
+  mkS (map snd (dims s)) (a_label s) (a_unit s) (a_data s) (a_ty s) (a_rank s) (frames s) (ro s) (foreign s) (b2_alive s).
 
 (* ------------------------------------------------------------------------------------------ *)
 (** * The observation checker [dims_ok]: judged on what the getters returned, nothing else *)
